@@ -15,6 +15,8 @@ import (
 	"sort"
 	"strconv"
 	"strings"
+	"sync"
+	"time"
 
 	"github.com/ethereum/go-ethereum/core/types"
 	"github.com/ethereum/go-ethereum/rlp"
@@ -106,13 +108,50 @@ func (s sparse) full() [][]byte {
 type c03oracle struct {
 	fail bool
 	sums []capella.HistoricalSummary
+	// overlapping calls: while armed, the FIRST lookup announces itself and waits for the gate
+	mu      sync.Mutex
+	armed   bool
+	calls   int
+	entered chan struct{}
+	gate    chan struct{}
+}
+
+func (o *c03oracle) arm() {
+	o.mu.Lock()
+	o.armed, o.calls, o.entered, o.gate = true, 0, make(chan struct{}), make(chan struct{})
+	o.mu.Unlock()
+}
+func (o *c03oracle) release() {
+	o.mu.Lock()
+	if o.armed {
+		o.armed = false
+		close(o.gate)
+	}
+	o.mu.Unlock()
 }
 
 func (o *c03oracle) GetHistoricalSummaries(epoch uint64) (capella.HistoricalSummaries, error) {
-	if o.fail {
+	o.mu.Lock()
+	var wait chan struct{}
+	if o.armed {
+		o.calls++
+		if o.calls == 1 {
+			close(o.entered)
+			wait = o.gate
+		}
+	}
+	fail, sums := o.fail, o.sums
+	o.mu.Unlock()
+	if wait != nil {
+		select {
+		case <-wait:
+		case <-time.After(10 * time.Second): // never hang the run
+		}
+	}
+	if fail {
 		return nil, errors.New("verif oracle error")
 	}
-	return capella.HistoricalSummaries(o.sums), nil
+	return capella.HistoricalSummaries(sums), nil
 }
 func (o *c03oracle) GetBlockHeaderByHash(hash []byte) (*types.Header, error) {
 	return nil, errors.New("verif oracle error")
@@ -546,6 +585,7 @@ func (g c03gen) chain(n int) []c03hdr {
 //	k0          the provider's cache starts as the first k0 true summaries
 //	events      ';' separated, each  number~hdr~hash~proofhex~oracle~truth ; oracle = err | <m> (the first m true summaries: the
 //	            oracle's list only ever grows, every answer is a prefix of the eventual list)
+//	            an optional 7th field ~<tag>: consecutive events with the same tag are run as OVERLAPPING calls (one oracle answer)
 //	verdict     ok | e | p        cache_i = indices (into the true list) of the provider's cache after call i, '.' separated ('-' empty, '?' unknown)
 type c03event struct {
 	number      uint64
@@ -553,12 +593,16 @@ type c03event struct {
 	hash, proof []byte
 	oracle      string
 	truth       string
+	par         string // events with the same non-empty tag that follow each other are run as OVERLAPPING calls
 }
 
 func c03eventsField(evs []c03event) string {
 	p := make([]string, len(evs))
 	for i, e := range evs {
 		p[i] = fmt.Sprintf("%d~%s~%s~%s~%s~%s", e.number, e.hdr, hx(e.hash), hx(e.proof), e.oracle, e.truth)
+		if e.par != "" {
+			p[i] += "~" + e.par
+		}
 	}
 	return strings.Join(p, ";")
 }
@@ -567,7 +611,11 @@ func c03parseEvents(s string) []c03event {
 	for _, e := range strings.Split(s, ";") {
 		f := strings.Split(e, "~")
 		n, _ := strconv.ParseUint(f[0], 10, 64)
-		evs = append(evs, c03event{number: n, hdr: f[1], hash: unhx(f[2]), proof: unhx(f[3]), oracle: f[4], truth: f[5]})
+		ev := c03event{number: n, hdr: f[1], hash: unhx(f[2]), proof: unhx(f[3]), oracle: f[4], truth: f[5]}
+		if len(f) > 6 {
+			ev.par = f[6]
+		}
+		evs = append(evs, ev)
 	}
 	return evs
 }
@@ -585,23 +633,18 @@ func c03history(c *Ctx, mode string, k0s string, truthList [][]byte, evs []c03ev
 		index[string(t)] = i
 	}
 	var verdicts, caches []string
-	for _, e := range evs {
-		if e.oracle == "err" {
-			orc.fail, orc.sums = true, nil
-		} else {
-			m, _ := strconv.Atoi(e.oracle)
-			orc.fail, orc.sums = false, c03summaries(truthList[:m])
-		}
+	verdictOf := func(e c03event) string {
 		var err error
 		p, _ := guard(func() { err = v.ValidateHeaderAndProof(c03header(e.number, unhx(e.hdr[4:])), e.proof) })
 		switch {
 		case p:
-			verdicts = append(verdicts, "p")
+			return "p"
 		case err != nil:
-			verdicts = append(verdicts, "e")
-		default:
-			verdicts = append(verdicts, "ok")
+			return "e"
 		}
+		return "ok"
+	}
+	cacheStr := func() string {
 		_, _, cache := v.VerifAccumulators()
 		ids := make([]string, len(cache))
 		for i, r := range cache {
@@ -612,11 +655,69 @@ func c03history(c *Ctx, mode string, k0s string, truthList [][]byte, evs []c03ev
 			}
 		}
 		if len(ids) == 0 {
-			caches = append(caches, "-")
-		} else {
-			caches = append(caches, strings.Join(ids, "."))
+			return "-"
 		}
-		c.Count("history_step")
+		return strings.Join(ids, ".")
+	}
+	for i := 0; i < len(evs); {
+		e := evs[i]
+		if e.oracle == "err" {
+			orc.fail, orc.sums = true, nil
+		} else {
+			m, _ := strconv.Atoi(e.oracle)
+			orc.fail, orc.sums = false, c03summaries(truthList[:m])
+		}
+		j := i + 1
+		for e.par != "" && j < len(evs) && evs[j].par == e.par {
+			j++
+		}
+		if j-i < 2 || mode != "scripted" {
+			verdicts = append(verdicts, verdictOf(e))
+			caches = append(caches, cacheStr())
+			c.Count("history_step")
+			i++
+			continue
+		}
+		// OVERLAPPING calls i..j-1 (one oracle answer for the group): call i is held inside the oracle lookup until every other
+		// call of the group has either finished or has had 150 ms to get as far as it can without the first one returning.
+		// On the code as it is today the others make their own lookup and finish at once, so nothing ever waits.
+		res := make([]string, j-i)
+		fin := make([]chan struct{}, j-i)
+		orc.arm()
+		for k := range res {
+			fin[k] = make(chan struct{})
+			go func(k int) {
+				res[k] = verdictOf(evs[i+k])
+				close(fin[k])
+			}(k)
+			if k == 0 {
+				select {
+				case <-orc.entered:
+				case <-fin[0]: // the first call never reached the oracle (cache hit, earlier rejection)
+				case <-time.After(5 * time.Second):
+				}
+			} else {
+				select {
+				case <-fin[k]:
+				case <-time.After(150 * time.Millisecond):
+				}
+			}
+		}
+		orc.release()
+		for k := range res {
+			select {
+			case <-fin[k]:
+			case <-time.After(20 * time.Second):
+				res[k] = "p"
+			}
+		}
+		cs := cacheStr()
+		for k := range res {
+			verdicts = append(verdicts, res[k])
+			caches = append(caches, cs)
+			c.Count("history_step_overlapping")
+		}
+		i = j
 	}
 	c.Count("history")
 	c.Emit("history %s %s %d %s %s | ok %s %s", c03constField(), mode, k0, hxl(truthList), c03eventsField(evs), strings.Join(verdicts, ","), strings.Join(caches, "/"))
@@ -790,10 +891,17 @@ type c03period struct {
 	slot        uint64
 }
 
-func (g c03gen) periods(n int) (ps []c03period, truthList [][]byte) {
+func (g c03gen) periods(n int) (ps []c03period, truthList [][]byte) { return g.periodsAt(n, -1) }
+
+// rec >= 0: every period's honest proof sits at the same in-period position (slots congruent mod 8192)
+func (g c03gen) periodsAt(n int, rec int) (ps []c03period, truthList [][]byte) {
 	for j := 0; j < n; j++ {
 		era := 2 + g.r.Intn(2)
-		k := g.postMerge(g.randNumber(era), era, c03slot(era, uint64(j), g.r.U64()%8192), uint64(j+1), "nil", "honest")
+		r := g.r.U64() % 8192
+		if rec >= 0 {
+			r = uint64(rec)
+		}
+		k := g.postMerge(g.randNumber(era), era, c03slot(era, uint64(j), r), uint64(j+1), "nil", "honest")
 		ps = append(ps, c03period{number: k.number, hdr: k.hdr, hash: k.hash, proof: k.proof, slot: binary.LittleEndian.Uint64(k.proof[len(k.proof)-8:])})
 		truthList = append(truthList, k.sums.ent[uint64(j)])
 	}
@@ -854,6 +962,25 @@ func (g c03gen) histories(nRandom int) {
 		ps, tl := g.periods(4)
 		evs := []c03event{g.event(ps, 2, 0, false, "0", true), g.event(ps, 3, 0, false, "0", false), g.event(ps, 3, 1, false, "0", true), g.event(ps, 0, 0, false, "0", true)}
 		c03history(c, "nil", "3", tl, evs)
+	}
+	{
+		// OVERLAPPING calls on a cold cache, all proofs at the same in-period position (what the oracle is asked for is slot % 8192)
+		ps, tl := g.periodsAt(7, g.r.Intn(8192))
+		par := func(e c03event, tag string) c03event { e.par = tag; return e }
+		evs := []c03event{
+			// the genuine proof of period 1 and the same proof re-claimed one period later, offered together
+			par(g.event(ps, 1, 0, false, str(3), true), "a"), par(g.event(ps, 1, -1, false, str(3), true), "a"),
+			// two honest proofs of neighbouring periods; one beyond what the oracle knows
+			par(g.event(ps, 4, 0, false, str(6), true), "b"), par(g.event(ps, 5, 0, false, str(6), true), "b"), par(g.event(ps, 6, 0, false, str(6), false), "b"),
+			g.event(ps, 3, 0, false, "err", true), // served from the cache afterwards
+		}
+		c03history(c, "scripted", "0", tl, evs)
+		// the first call is out of range, the second honest and in range; then a re-claim beyond the list next to the genuine proof
+		evs = []c03event{
+			par(g.event(ps, 5, 0, false, str(3), false), "a"), par(g.event(ps, 2, 0, false, str(3), true), "a"),
+			par(g.event(ps, 0, 0, false, str(3), true), "b"), par(g.event(ps, 0, -6, false, str(3), true), "b"),
+		}
+		c03history(c, "scripted", "0", tl, evs)
 	}
 	for h := 0; h < nRandom; h++ {
 		n := 4 + g.r.Intn(5)
